@@ -215,6 +215,14 @@ func (f *Failover) Get(
 		return nil, unexpectedBackendError // Cache backend failed with unexpected error.
 	}
 
+	// Expired value is served if update fails, even if it has expired longer than MaxStaleness.
+	stale := value
+
+	var expired ErrWithExpiredItem
+	if stale == nil && errors.As(err, &expired) {
+		stale = expired.Value()
+	}
+
 	// Check if update failed recently.
 	if err := f.recentlyFailed(ctx, key); err != nil {
 		keyLock.err = err
@@ -237,8 +245,8 @@ func (f *Failover) Get(
 					"key", key)
 			}
 
-			if value != nil && !f.config.FailHard {
-				return value, nil
+			if stale != nil && !f.config.FailHard {
+				return stale, nil
 			}
 		}
 
